@@ -54,6 +54,14 @@ Theorem fwd_emit_accepted_fits : forall out_len0 out_n maxlen pos in_n in_len,
   out_len0 + out_n <= maxlen /\ pos + in_n <= in_len.
 Proof. exact fwd_accept_fits. Qed.
 
+(* the plain one-element copy of the forward stage loops (makeCorrections, translatePass): with the REGENERATED
+   guard passed, the element is written below maxlength; the guard is the one the stage models use *)
+Theorem fwd_stage_copy_fits : forall o m,
+  (fwd_correct_copy_rejects o m = false -> o < m) /\ (fwd_pass_copy_rejects o m = false -> o < m) /\
+  fwd_correct_copy_rejects o m = (o + 1 >? m) /\ fwd_pass_copy_rejects o m = (o + 1 >? m).
+Proof. exact EmitProofs.fwd_stage_copy_l. Qed.
+Print Assumptions fwd_stage_copy_fits.
+
 Example plan_binds_somewhere : (* the typebuf plan is tight only through the slack: L = 3000, O = 10 *)
   demand_typebuf 3000 10 = 3000 /\ provided size_typebuf false 3000 10 = 3004.
 Proof. split; reflexivity. Qed.
